@@ -1199,6 +1199,9 @@ def checkIgnored(hostmask, recipient='', users=users, channels=channels):
     Checks if the user is ignored by the recipient of the message.
     """
     try:
+        if not ircutils.isUserHostmask(hostmask):
+            # A server or bare-nick prefix: not an account *name*.
+            raise KeyError(hostmask)
         id = users.getUserId(hostmask)
         user = users.getUser(id)
     except KeyError:
@@ -1258,7 +1261,7 @@ def _checkCapabilityForUnknownUser(capability, users=users, channels=channels,
 def checkCapability(hostmask, capability, users=users, channels=channels,
                     ignoreOwner=False, ignoreChannelOp=False,
                     ignoreDefaultAllow=False):
-    """Checks that the user specified by name/hostmask has the capability given.
+    """Checks that the user specified by hostmask (or id) has the capability given.
 
     ``users`` and ``channels`` default to ``ircdb.users`` and
     ``ircdb.channels``.
@@ -1279,6 +1282,10 @@ def checkCapability(hostmask, capability, users=users, channels=channels,
             '__no_testcap__' not in hostmask.split('@')[1]):
         return _x(capability, True)
     try:
+        if isinstance(hostmask, str) and not ircutils.isUserHostmask(hostmask):
+            # The prefix of a message that no user sent (a server, a service,
+            # a bare nick) must not be looked up as an account *name*.
+            raise KeyError(hostmask)
         u = users.getUser(hostmask)
         if u.secure and not u.checkHostmask(hostmask, useAuth=False):
             raise KeyError
